@@ -19,6 +19,9 @@ pub const FILLERS: &[&str] = &[
     "<img a=1/>",
     "<EM>t</EM>",
     "<script>x<y</script>",
+    // self-closing syntax on elements that are not void (inline SVG, custom elements): one token, no end tag follows
+    "<svg:path d=\"M0 0\"/>",
+    "<x-foo/>",
 ];
 const P_K: usize = 4;
 
@@ -111,6 +114,9 @@ pub enum Sel {
     Nothing,
     /// Some(""): behaves as no selector
     Empty,
+    /// a selector the engine cannot parse (`a:visited`, `meta[property=og:title]`): it matches no element
+    Unparsable,
+    UnparsableAttr,
 }
 
 #[derive(Clone, Debug, Serialize, Deserialize)]
@@ -131,6 +137,8 @@ impl Filt {
             Sel::PK => Some("p.k"),
             Sel::Nothing => Some("span.nomatch"),
             Sel::Empty => Some(""),
+            Sel::Unparsable => Some("p:visited::before"),
+            Sel::UnparsableAttr => Some("meta[property=og:title]"),
         };
         let mut spec = FilterSpec::html(&self.action, &p, sel, &self.value);
         if self.distinct_inner {
@@ -147,7 +155,7 @@ fn edit_occurrence(f: &Filt, kind: &TargetKind, open: &str, inner: &str, close: 
     let selector_matches = match f.selector {
         Sel::None | Sel::Empty => None,
         Sel::PK => Some(inner_fillers.contains(&P_K)),
-        Sel::Nothing => Some(false),
+        Sel::Nothing | Sel::Unparsable | Sel::UnparsableAttr => Some(false),
     };
     match f.action.as_str() {
         "append_child" => {
@@ -260,7 +268,7 @@ fn filler_lists(max: usize) -> Vec<Vec<usize>> {
 pub fn filters() -> Vec<Filt> {
     let mut v = Vec::new();
     for action in ["append_child", "prepend_child", "replace"] {
-        for selector in [Sel::None, Sel::PK, Sel::Nothing, Sel::Empty] {
+        for selector in [Sel::None, Sel::PK, Sel::Nothing, Sel::Empty, Sel::Unparsable, Sel::UnparsableAttr] {
             for value in [V1, V2] {
                 v.push(Filt { action: action.to_string(), selector: selector.clone(), value: value.to_string(), distinct_inner: value == V2 });
             }
